@@ -45,14 +45,16 @@ Definition plain (x : str) : bool := match kw_of x with KPlain => true | _ => fa
 Definition not_kw_not (x : str) : bool := match kw_of x with KNot => false | _ => true end.
 
 (* the parser's own side conditions on a surface tree (grammar covered by the theorem:
-   everything except slices, array/map literals and list comprehensions) *)
+   everything except array/map literals and list comprehensions) *)
 Fixpoint printable (s : sx) : bool :=
   match s with
   | SConst c => scalar c
   | SVar x => plain x
   | SAttr e _ _ => is_chain e && printable e
   | SItem e i opt => (if opt then is_chain e else true) && printable e && printable i
-  | SSlice _ _ _ _ _ => false
+  | SSlice e a b c opt =>
+      let op := fun (o : option sx) => match o with Some x => printable x | None => true end in
+      (if opt then is_chain e else true) && printable e && op a && op b && op c
   | SUn _ e => printable e
   | SBin o a b =>
       match o with
@@ -83,6 +85,9 @@ Fixpoint need (s : sx) : nat :=
   | SConst _ | SVar _ => 1
   | SAttr e _ _ => need e
   | SItem e i _ => Nat.max (needw lvl_atom (lvl e) (need e)) (S (need i))
+  | SSlice e a b c _ =>
+      let on := fun (o : option sx) => match o with Some x => need x | None => 0 end in
+      Nat.max (needw lvl_atom (lvl e) (need e)) (S (Nat.max (on a) (Nat.max (on b) (on c))))
   | SUn u e => S (if (lvl e <? lvl_un u) || starts_unary (raw e) then S (need e) else need e)
   | SBin o a b => Nat.max (needw (lp o) (lvl a) (need a)) (S (needw (rp o) (lvl b) (need b)))
   | SNotIn a b => Nat.max (needw (lp OIn) (lvl a) (need a)) (S (needw (rp OIn) (lvl b) (need b)))
@@ -104,6 +109,9 @@ Fixpoint needb (s : sx) : nat :=
   | SConst _ | SVar _ => 0
   | SAttr e _ _ => needb e
   | SItem e i _ => Nat.max (needb e) (S (needb i))
+  | SSlice e a b c _ =>
+      let ob := fun (o : option sx) => match o with Some x => needb x | None => 0 end in
+      Nat.max (needb e) (S (Nat.max (ob a) (Nat.max (ob b) (ob c))))
   | SUn _ e => needb e
   | SBin _ a b | SNotIn a b => Nat.max (needb a) (needb b)
   | STest e _ kw _ | SFilter e _ kw =>
@@ -117,7 +125,7 @@ Fixpoint needb (s : sx) : nat :=
 (* loop iterations of the frame that parses `raw s` which the left spine of s uses *)
 Fixpoint spine (s : sx) : nat :=
   match s with
-  | SItem e _ _ => if is_chain e then 0 else S (if lvl e <? lvl_atom then 0 else spine e)
+  | SItem e _ _ | SSlice e _ _ _ _ => if is_chain e then 0 else S (if lvl e <? lvl_atom then 0 else spine e)
   | SBin o a _ => S (if lvl a <? lp o then 0 else spine a)
   | SNotIn a _ => S (S (if lvl a <? lp OIn then 0 else spine a))
   | STest e _ _ _ => S (if lvl e <? lp OIs then 0 else spine e)
@@ -144,7 +152,7 @@ Definition is_lparen (t : token) : bool := match t with TLParen => true | _ => f
 Fixpoint follow (s : sx) (t : token) : bool :=
   match s with
   | SVar _ | SAttr _ _ _ => negb (chain_tok t)
-  | SItem e _ _ => if is_chain e then negb (chain_tok t) else true
+  | SItem e _ _ | SSlice e _ _ _ _ => if is_chain e then negb (chain_tok t) else true
   | SUn u e =>
       refused (lvl_un u) t && (if (lvl e <? lvl_un u) || starts_unary (raw e) then true else follow e t)
   | SBin o _ b => refused (rp o) t && (if lvl b <? rp o then true else follow b t)
